@@ -603,6 +603,7 @@ fn c09_hist(input: &Input, obs: &mut Obs) -> Result<(), Fail> {
                     return Err(("respond-err".into(), w.api_errors.last().cloned().unwrap_or_default()));
                 }
             }
+            w.answer_untagged();
             // unwritable (SHUT_RD) adversaries are released once a write was attempted and
             // everything is answered; the others are closed by the harness now
             for a in 1..n + 3 {
@@ -678,12 +679,14 @@ fn c10_hist(input: &Input, obs: &mut Obs) -> Result<(), Fail> {
     let mut reached_cap = false;
     let mut cycles = 0;
     let alive = |w: &World, c: usize| w.clients[c].state == CState::Connected && !w.clients[c].shut_rd && !w.clients[c].shut_wr;
+    // shut down for reading only: the server learns about it when (and if) a write fails
+    let maybe = |w: &World, c: usize| w.clients[c].state == CState::Connected && w.clients[c].shut_rd && !w.clients[c].shut_wr;
     let r = (|| -> Result<(), (String, String)> {
         let nops = s.range(10, 90);
         let mut target_high = true;
         for _ in 0..nops {
             // model: held = alive accepted + dead accepted with unanswered requests
-            let held_model = |w: &World, accepted: &Vec<usize>| accepted.iter().filter(|c| alive(w, **c) || w.outstanding.iter().any(|o| o.c == **c)).count();
+            let held_model = |w: &World, accepted: &Vec<usize>| accepted.iter().filter(|c| alive(w, **c) || maybe(w, **c) || w.outstanding.iter().any(|o| o.c == **c)).count();
             let hm = held_model(&w, &accepted);
             // bias: fill towards 9..12, then drain, repeatedly
             if hm >= 10 {
@@ -696,9 +699,10 @@ fn c10_hist(input: &Input, obs: &mut Obs) -> Result<(), Fail> {
                 target_high = true;
                 cycles += 1;
             }
-            let wts: [u32; 8] = if target_high { [14, 2, 1, 4, 2, 3, 2, 3] } else { [3, 10, 3, 3, 1, 4, 2, 2] };
+            let wts: [u32; 9] = if target_high { [14, 2, 1, 4, 2, 3, 2, 3, 1] } else { [3, 10, 3, 3, 1, 4, 2, 2, 1] };
             let op = s.weighted(&wts);
-            let mut burst_close = false;
+            // with a read-shut client around, the number of held connections is not known exactly
+            let mut burst_close = accepted.iter().any(|c| maybe(&w, *c));
             let mut new_conns: Vec<usize> = Vec::new();
             match op {
                 0 => {
@@ -754,6 +758,21 @@ fn c10_hist(input: &Input, obs: &mut Obs) -> Result<(), Fail> {
                     if !live.is_empty() {
                         let c = live[s.below(live.len())];
                         w.read_client(c, usize::MAX);
+                    }
+                }
+                8 => {
+                    // a client stops reading (shutdown(RD)): the server finds out through a failing write
+                    let live: Vec<usize> = accepted.iter().copied().filter(|c| alive(&w, *c)).collect();
+                    if !live.is_empty() {
+                        let c = live[s.below(live.len())];
+                        if s.chance(200) && !w.outstanding.iter().any(|o| o.c == c) {
+                            let spec = spec_from(&mut s, false, false);
+                            w.send_request(c, &spec, &[]);
+                            w.settle(100, true);
+                        }
+                        w.shutdown_client(c, libc::SHUT_RD);
+                        burst_close = true;
+                        obs.label("client_shut_rd");
                     }
                 }
                 _ => {
@@ -832,7 +851,7 @@ fn c10_hist(input: &Input, obs: &mut Obs) -> Result<(), Fail> {
                 }
             }
             // release model: dead and fully answered connections are gone
-            accepted.retain(|c| alive(&w, *c) || w.outstanding.iter().any(|o| o.c == *c));
+            accepted.retain(|c| alive(&w, *c) || maybe(&w, *c) || w.outstanding.iter().any(|o| o.c == *c));
             let serving = accepted.iter().filter(|c| alive(&w, **c)).count();
             if serving > 10 {
                 return Err(("over-capacity".into(), format!("{} clients are connected and unrefused at once", serving)));
@@ -869,6 +888,7 @@ fn c10_hist(input: &Input, obs: &mut Obs) -> Result<(), Fail> {
         while !w.outstanding.is_empty() {
             w.respond(0, 200, 5);
         }
+        w.answer_untagged();
         let (_, over) = w.settle(600, true);
         if let Some(PollRes::Err(e)) = w.poll_results.iter().find(|r| matches!(r, PollRes::Err(_))) {
             return Err((format!("requests-err:{}", e), format!("requests() returned Err({})", e)));
@@ -942,8 +962,12 @@ fn c07_audit_all(w: &World) -> Result<(), (String, String)> {
     if let Some(f) = w.yield_faults.first() {
         return Err(("yield".into(), f.clone()));
     }
+    // (a client that sent garbage or partial requests may legitimately get request-like bytes of
+    // a body parsed as a request of its own after an error; only clean histories are judged here)
     if let Some(u) = w.yielded_untagged.first() {
-        return Err(("yield".into(), format!("a request nobody sent was yielded: {:?}", u)));
+        if !w.clients.iter().any(|c| c.dirty) {
+            return Err(("yield".into(), format!("a request nobody sent was yielded: {:?}", u)));
+        }
     }
     if let Some(e) = w.api_errors.first() {
         return Err(("respond-rejected".into(), format!("supplying a response was refused: {}", e)));
@@ -1161,13 +1185,14 @@ fn c07_macro_enum(tier: Tier, shard: u64, nshards: u64, f: &mut dyn FnMut(&[u64]
 
 fn c07_hist(input: &Input, obs: &mut Obs) -> Result<(), Fail> {
     let mut s = Src::new(input.bytes());
-    let mut w = World::new(10, false, obs.want_render).map_err(|e| Fail::new("harness-world", e))?;
+    let skeleton = s.weighted(&[6, 6, 3]);
+    let nslots = if skeleton == 2 { 24 } else { 10 };
+    let mut w = World::new(nslots, false, obs.want_render).map_err(|e| Fail::new("harness-world", e))?;
     let mut next_slot = 0usize;
     let mut orphaned = false;
     let mut connect_after_orphan = false;
     let mut late_respond = false;
     let mut two_orphans = 0;
-    let skeleton = s.weighted(&[6, 6]);
     let r = (|| -> Result<(), (String, String)> {
         if skeleton == 1 {
             // c sends k requests, closes with them in flight, c' connects, the application answers
@@ -1223,12 +1248,62 @@ fn c07_hist(input: &Input, obs: &mut Obs) -> Result<(), Fail> {
             w.settle(200, false);
             c07_audit_all(&w)?;
         }
+        if skeleton == 2 {
+            // the same story at connection capacity: 10 connections, one of them goes away with
+            // requests in flight, further clients connect, the answers come late
+            let spec = ReqSpec { method: 0, version: 1, body: 0, expect: false, extra_headers: 0, body_kind: 0 };
+            for _ in 0..10 {
+                w.connect(next_slot);
+                next_slot += 1;
+            }
+            w.settle(100, false);
+            let victim = s.below(10);
+            let k = s.range(1, 2);
+            for _ in 0..k {
+                w.send_request(victim, &spec, &[]);
+            }
+            if s.chance(128) {
+                let other = (victim + 1) % 10;
+                w.send_request(other, &spec, &[]);
+            }
+            w.settle(100, false);
+            if w.outstanding.iter().any(|o| o.c == victim) {
+                orphaned = true;
+            }
+            if s.chance(170) { w.close_client(victim) } else { w.shutdown_client(victim, libc::SHUT_WR) }
+            if s.chance(128) {
+                w.settle(100, false);
+            }
+            let newcomers = s.range(1, 3);
+            for _ in 0..newcomers {
+                w.connect(next_slot);
+                next_slot += 1;
+                connect_after_orphan = orphaned;
+                if s.chance(128) {
+                    w.settle(100, false);
+                }
+            }
+            if s.chance(128) {
+                let c2 = next_slot - 1;
+                w.send_request(c2, &spec, &[]);
+            }
+            while let Some(kk) = w.outstanding.iter().position(|o| o.c == victim) {
+                late_respond = true;
+                w.respond(kk, 200, s.range(0, 300));
+                if s.chance(100) {
+                    w.poll();
+                }
+            }
+            w.settle(200, false);
+            c07_audit_all(&w)?;
+            obs.label("at_capacity_skeleton");
+        }
         let nops = s.range(3, 60);
         for _ in 0..nops {
             let conn = connected(&w);
             match s.weighted(&[4, 10, 3, 4, 2, 2, 4, 8, 8, 3]) {
                 0 => {
-                    if next_slot < 10 && conn.len() < 4 {
+                    if next_slot < nslots && conn.len() < 4 {
                         w.connect(next_slot);
                         next_slot += 1;
                         if orphaned {
@@ -1359,6 +1434,8 @@ pub fn c07() -> PropDef {
 
 #[derive(Clone, Debug)]
 enum KOp {
+    /// every connected client sends something (partial or complete) without a poll in between
+    SendAll(bool),
     Connect,
     Send(ReqSpec, Vec<usize>),
     SendPartial(ReqSpec, usize),
@@ -1372,6 +1449,17 @@ enum KOp {
 fn k_apply(w: &mut World, op: &KOp, next_slot: &mut usize) {
     let conn = connected(w);
     match op {
+        KOp::SendAll(complete) => {
+            for c in conn {
+                if *complete {
+                    let spec = ReqSpec { method: 0, version: 1, body: 0, expect: false, extra_headers: 0, body_kind: 0 };
+                    w.send_request(c, &spec, &[]);
+                } else {
+                    w.send_raw(c, b"GET /partial");
+                    w.clients[c].dirty = true;
+                }
+            }
+        }
         KOp::Connect => {
             if *next_slot < w.clients.len() {
                 w.connect(*next_slot);
@@ -1429,9 +1517,14 @@ fn k_gen(s: &mut Src) -> (Vec<KOp>, bool) {
         }
         ops.push(KOp::Settle);
         ops.push(KOp::Connect); // an eleventh waits in the backlog
+        if s.chance(150) {
+            // ... while every connection has unread input: more ready descriptors than connections
+            ops.push(KOp::SendAll(s.chance(128)));
+        }
     }
     for _ in 0..n {
-        let op = match s.weighted(&[5, 10, 3, 3, 2, 8, 6, 3]) {
+        let op = match s.weighted(&[5, 10, 3, 3, 2, 8, 6, 3, 2]) {
+            8 => KOp::SendAll(s.chance(128)),
             0 => KOp::Connect,
             1 => {
                 let spec = spec_from(s, true, false);
@@ -1827,11 +1920,27 @@ fn c13_server(input: &Input, obs: &mut Obs) -> Result<(), Fail> {
             w.clients[c].composed.pop();
             let hdr = probe.len() - n;
             let before = audit_client(&w, c)?.n100;
-            // header block only
-            w.send_request(c, &spec, &[hdr]);
-            let j = w.clients[c].composed.len() - 1;
-            // the body piece stays staged while we settle by hand (settle would push it)
-            let staged: Vec<Vec<u8>> = w.clients[c].staged.drain(..).collect();
+            let pipelined_front = s.chance(100);
+            let staged: Vec<Vec<u8>>;
+            let j;
+            if pipelined_front {
+                // a complete request and the header block of the next one in ONE send; the first
+                // stays unanswered while the client waits for the interim response
+                let front = ReqSpec { method: 0, version: 1, body: 0, expect: false, extra_headers: s.below(2), body_kind: 0 };
+                let mut bytes = w.compose(c, &front);
+                let b2 = w.compose(c, &spec);
+                j = w.clients[c].composed.len() - 1;
+                bytes.extend_from_slice(&b2[..hdr]);
+                staged = if n > 0 { vec![b2[hdr..].to_vec()] } else { vec![] };
+                w.send_raw(c, &bytes);
+                obs.label("complete_request_and_expect_headers_in_one_send");
+            } else {
+                // header block only
+                w.send_request(c, &spec, &[hdr]);
+                j = w.clients[c].composed.len() - 1;
+                // the body piece stays staged while we settle by hand (settle would push it)
+                staged = w.clients[c].staged.drain(..).collect();
+            }
             w.settle(200, true);
             let a = audit_client(&w, c)?;
             let want = if expect && n > 0 { 1 } else { 0 };
@@ -1848,8 +1957,8 @@ fn c13_server(input: &Input, obs: &mut Obs) -> Result<(), Fail> {
             if !w.clients[c].yielded.contains(&j) {
                 return Err(("not-yielded".into(), format!("r{} was not yielded after its body arrived", j)));
             }
-            if let Some(k) = w.outstanding.iter().position(|o| o.c == c && o.j == j) {
-                w.respond(k, 200, s.range(0, 200));
+            while !w.outstanding.is_empty() {
+                w.respond(0, 200, s.range(0, 200));
             }
             w.settle(200, true);
             let a2 = audit_client(&w, c)?;
